@@ -365,6 +365,8 @@ fn gen_seqs(budget: usize, depth: u32, max_depth: u32, out: &mut Vec<Vec<St>>) {
     } else {
         firsts.push((St::BrTable(vec![0], 0), 1));
     }
+    // a br_table with an EMPTY label vector (only the default label): still a br_table, it pops its selector
+    firsts.push((St::BrTable(vec![], depth), 1));
     if depth < max_depth {
         for inner_budget in 0..budget {
             let mut inner = vec![];
